@@ -38,6 +38,7 @@ class KernelSummary:
         self.env = {}
         self.ret = None
         self.params = ()
+        self.breaks = []   # (path conditions at the `break`, loop node): early exits of a kernel loop
 
     def canon(self, array):
         """name-independent identity of a stored-into array: a parameter keeps its (API) name, a local is numbered by the order in which
@@ -74,6 +75,8 @@ def summarize(model, func, env=None, call_hook=None, stmts=None):
         for o in outs:
             if o.status == "return":
                 raise Unrecognised("return inside a kernel loop", s)
+            if o.status == "break":
+                ks.breaks.append((list(o.conds), s))
         # continue after the loop on the first state's environment (kernel loops do not change scalars we use later)
         res = outs[0]
         res.conds = list(st.conds)
